@@ -364,7 +364,7 @@ Section Main.
 
   Notation step := (step kv vv tgt).
   Notation ev_codes := (ev_codes tgt).
-  Notation ref_codes := (ref_codes kv vv).
+  Notation ref_codes3 := (ref_codes3 kv vv).
   Notation law_step := (law_step kv vv tgt).
 
   Lemma raise_ev e m : ev_codes m (raise tgt e m) = [].
@@ -435,21 +435,21 @@ Section Main.
   Lemma ref_intro m o ob bo ba br :
     builtin kv vv m o (o_ret ob) = (bo, ba, br) ->
     outcome_eqb (o_out ob) bo = true -> mapeq (o_after ob) ba = true -> retv_eqb (o_ret ob) br = true ->
-    ref_codes m o ob = [].
-  Proof. intros Hb H1 H2 H8. unfold Law.ref_codes. rewrite Hb, H1, H2, H8. reflexivity. Qed.
+    ref_codes3 m o ob = [].
+  Proof. intros Hb H1 H2 H8. unfold Law.ref_codes3. rewrite Hb, H1, H2, H8. reflexivity. Qed.
 
   Lemma retv_eqb_refl r : retv_eqb r r = true.
   Proof. destruct r; cbn; rewrite ?Z.eqb_refl; reflexivity. Qed.
 
   Lemma ref_raise m o e r0 :
-    builtin kv vv m o r0 = (Raise e, m, RNone) -> r0 = RNone -> ref_codes m o (raise tgt e m) = [].
+    builtin kv vv m o r0 = (Raise e, m, RNone) -> r0 = RNone -> ref_codes3 m o (raise tgt e m) = [].
   Proof.
     intros Hb ->. eapply ref_intro; [exact Hb | | apply mapeq_refl | reflexivity]. destruct e; reflexivity.
   Qed.
 
   Lemma ref_store m o vk vvv r ba :
     builtin kv vv m o r = (Ok, ba, r) -> mapeq (mset vk vvv m) ba = true ->
-    ref_codes m o (store tgt m vk vvv r) = [].
+    ref_codes3 m o (store tgt m vk vvv r) = [].
   Proof.
     intros Hb Hm. unfold store. destruct (lookup vk m); (eapply ref_intro; [exact Hb | reflexivity | exact Hm | apply retv_eqb_refl]).
   Qed.
@@ -460,7 +460,7 @@ Section Main.
       | Some vps => (Ok, update_all vps m, RNone)
       | None => (Raise TraitError, m, RNone)
       end ->
-    ref_codes m o (do_update kv vv tgt m a ps) = [].
+    ref_codes3 m o (do_update kv vv tgt m a ps) = [].
   Proof.
     intros Hb. unfold do_update. rewrite upd_loop_validated.
     destruct (validate_pairs kv vv (items_of a ps)) as [vps|]; [|eapply ref_raise; [exact Hb | reflexivity]].
@@ -471,7 +471,7 @@ Section Main.
     destruct (mempty ad && mempty ch); (eapply ref_intro; [exact Hb | reflexivity | exact Hm | reflexivity]).
   Qed.
 
-  Theorem step_ref_codes m o : f6_trigger kv vv m o = false -> ref_codes m o (step m o) = [].
+  Theorem step_ref_codes m o : f6_trigger kv vv m o = false -> ref_codes3 m o (step m o) = [].
   Proof.
     intros Hf. destruct o as [k v|k|a ps|a ps|k v|k d| | |a ps]; cbn [Model.step].
     - destruct (kv k) as [vk|] eqn:Ek.
@@ -510,9 +510,8 @@ Section Main.
           assert (Hin : In (k, v0) m) by (apply in_rev; rewrite Er; left; reflexivity).
           apply has_true. rewrite <- lookup_keys. apply mem_In. apply (in_map fst) in Hin. exact Hin. }
         destruct Hk as [x Hx]. rewrite Hx.
-        assert (Hne : mempty m = false) by (destruct m; [discriminate | reflexivity]).
         eapply ref_intro; cbn [ok mk o_ret o_out o_after].
-        * cbn [builtin]. rewrite Hne, Hx. cbn [oz_eqb]. rewrite Z.eqb_refl. reflexivity.
+        * cbn [builtin]. rewrite El, Hx. reflexivity.
         * reflexivity.
         * apply mapeq_refl.
         * apply retv_eqb_refl.
@@ -541,9 +540,37 @@ Section Main.
     destruct o; try discriminate E. rewrite ctor_silent. reflexivity.
   Qed.
 
+  (* clause 9: the keys keep the built-in dict's insertion order (unconditional, also in the F6 shape) *)
+  Lemma zlist_refl l : list_eqb Z.eqb l l = true.
+  Proof. induction l as [|x l IH]; [reflexivity|]. cbn. rewrite Z.eqb_refl. exact IH. Qed.
+
+  Lemma keys_mset_present k v x m : lookup k m = Some x -> keys (mset k v m) = keys m.
+  Proof.
+    induction m as [|[k2 v2] r IH]; cbn; [discriminate|]. destruct (Z.eqb_spec k k2) as [->|Hne]; intros H.
+    - reflexivity.
+    - cbn. f_equal. apply IH. exact H.
+  Qed.
+
+  Theorem step_order m o : order_ok kv vv m o (step m o) = true.
+  Proof.
+    unfold order_ok. destruct o as [k v|k|a ps|a ps|k v|k d| | |a ps]; cbn [Model.step builtin order_checked negb orb];
+      try reflexivity; try rewrite ctor_loop_validated; unfold store, has;
+      repeat (match goal with
+              | |- context [match ?x with _ => _ end] =>
+                  match type of x with
+                  | option _ => destruct x eqn:?
+                  | bool => destruct x eqn:?
+                  | (_ * _)%type => is_var x; destruct x
+                  end
+              end; cbn [ok raise mk o_after o_ret negb orb]);
+      try apply zlist_refl; try discriminate; try congruence.
+    all: try (erewrite keys_mset_present by eassumption; apply zlist_refl).
+  Qed.
+
   Theorem step_law m o : f6_trigger kv vv m o = false -> law_step m o (step m o) = [].
   Proof.
-    intros Hf. unfold Law.law_step. rewrite step_ref_codes by exact Hf. rewrite step_ev_part. reflexivity.
+    intros Hf. unfold Law.law_step, Law.ref_codes. rewrite step_ref_codes by exact Hf.
+    rewrite step_order, step_ev_part. reflexivity.
   Qed.
 
   (* With the F6 shape allowed: the only clauses that can fail are contents (2)
@@ -552,7 +579,8 @@ Section Main.
     forall c, In c (law_step m o (step m o)) -> f6_trigger kv vv m o = true /\ (c = 2 \/ c = 8).
   Proof.
     intros c Hin. destruct (f6_trigger kv vv m o) eqn:Hf.
-    - split; [reflexivity|]. unfold Law.law_step in Hin. rewrite step_ev_part, app_nil_r in Hin.
+    - split; [reflexivity|]. unfold Law.law_step, Law.ref_codes in Hin.
+      rewrite step_ev_part, step_order in Hin. cbn [chk] in Hin. rewrite !app_nil_r in Hin.
       destruct o as [k v|k|a ps|a ps|k v|k d| | |a ps]; try discriminate Hf.
       cbn [f6_trigger] in Hf. cbn [Model.step] in Hin.
       destruct (lookup k m) as [x|] eqn:El; [discriminate|].
@@ -560,7 +588,7 @@ Section Main.
       apply andb_true_iff in Hf. destruct Hf as [Hf Hh]. apply andb_true_iff in Hf. destruct Hf as [Ehk Ehv].
       rewrite Ehk, Ehv in Hin. cbn [negb] in Hin.
       apply has_true in Hh. destruct Hh as [old Hold].
-      unfold store, Law.ref_codes in Hin. rewrite Hold in Hin.
+      unfold store, Law.ref_codes3 in Hin. rewrite Hold in Hin.
       cbn [ok mk o_ret o_out o_after builtin] in Hin. rewrite Ehk, El, Ek, Ev, Ehv, Hold in Hin. cbn [negb] in Hin.
       cbn [outcome_eqb chk app] in Hin. apply in_app_or in Hin. destruct Hin as [Hin|Hin].
       + destruct (mapeq (mset vk vvv m) m); cbn in Hin; [contradiction|]. destruct Hin as [<-|[]]. left; reflexivity.
@@ -758,7 +786,7 @@ Section Readings.
     let '(bo, ba, br) := builtin kv vv m o (o_ret ob) in
     o_out ob = bo /\ (forall k, lookup k (o_after ob) = lookup k ba) /\ o_ret ob = br.
   Proof.
-    intros Hf. cbn zeta. pose proof (step_ref_codes kv vv tgt m o Hf) as H. unfold ref_codes in H.
+    intros Hf. cbn zeta. pose proof (step_ref_codes kv vv tgt m o Hf) as H. unfold ref_codes3 in H.
     destruct (builtin kv vv m o (o_ret (step m o))) as [[bo ba] br].
     apply chk_app_nil in H. destruct H as [H1 H]. apply chk_app_nil in H. destruct H as [H2 H]. apply chk_nil in H.
     split; [|split].
